@@ -486,7 +486,14 @@ impl Tree {
                             k += 1;
                         }
                         Some(_) => {
-                            return Expect::Err(vec![Errc::Exists, Errc::NotDir]);
+                            // a regular file in the way: EEXIST when it is the
+                            // final component, ENOTDIR (accepted: not found)
+                            // when it is an intermediate one
+                            return Expect::Err(if k + 1 == cs.len() {
+                                vec![Errc::Exists]
+                            } else {
+                                vec![Errc::NotDir, Errc::NotFound]
+                            });
                         }
                         None => break,
                     }
@@ -525,7 +532,7 @@ impl Tree {
             },
             Op::ReadDir { p, .. } => match self.lookup(p) {
                 Err(e) => Expect::Err(e),
-                Ok(i) if !self.is_dir(i) => Expect::Err(vec![Errc::NotDir, Errc::NotFound]),
+                Ok(i) if !self.is_dir(i) => Expect::Err(e1(Errc::NotDir)),
                 Ok(i) => Expect::Ok(Val::Names(self.dir(i).keys().cloned().collect())),
             },
             Op::Metadata { p, .. } => match self.lookup(p) {
